@@ -861,7 +861,7 @@ class Food(UnitConversions):
 
         self.validate_if_list()
 
-        return Food(
+        item = Food(
             kcals=self.kcals[key],
             fat=self.fat[key],
             protein=self.protein[key],
@@ -869,6 +869,12 @@ class Food(UnitConversions):
             fat_units=self.fat_units,
             protein_units=self.protein_units,
         )
+
+        if not item.is_list_monthly():
+            # a single month was selected: its units are " per month", not " each month"
+            item.set_units_from_list_to_element()
+
+        return item
 
     def __setitem__(self, key, value):
         """
